@@ -237,6 +237,65 @@ static inline const vf_name *vf_names_abH_get(void)
     return vf_names_abH;
 }
 
+/* ---------------------------------------------------------------- sibling family
+ * Every PAIR (level >= 1) and every TRIPLE (level >= 2) of small sibling subtrees under an object root (member names "" < "a" < "b"
+ * or "a" < "b" < "c") and under an array root: what one sibling leaves behind in the per-level state meets every shape of the next
+ * one - a slice of the documents with 4..9 value tokens that the plain enumeration (<= 3..5 tokens) does not reach.
+ * Subtrees: 27 shapes with <= 3 value tokens over {int, string, {}, []} with inner names "" and "a" (pairs); the 16 shapes with <= 2
+ * tokens (triples). Documents are delivered through g->cb exactly as vf_gen_run does (g->doc, g->index). */
+#define VF_NSIB 27
+#define VF_NSIB_SMALL 16
+static inline void vf_sib_subtree(vf_gen *g, int s)
+{
+    vf_doc *d = &g->doc;
+    static const int leafcls[2] = { LC_INT8, LC_STR };
+#define SIB_LEAF(c) vf_emit_leaf(d, leafcls[c], g->leafk++)
+#define SIB_VAL(c) do { if ((c) < 2) SIB_LEAF(c); else { vf_b_open(d, (c) == 2 ? VK_OBJ : VK_ARR); vf_b_close(d); } } while (0)
+#define SIB_NAME(n) vf_b_name(d, (n) ? "a" : "", (n) ? 1 : 0)
+    if (s < 4) { SIB_VAL(s); return; }
+    if (s < 12) { int n = (s - 4) / 4, c = (s - 4) % 4; vf_b_open(d, VK_OBJ); SIB_NAME(n); SIB_VAL(c); vf_b_close(d); return; }
+    if (s < 16) { vf_b_open(d, VK_ARR); SIB_VAL(s - 12); vf_b_close(d); return; }
+    switch (s) {
+    case 16: case 17: case 18: case 19: { int n = (s - 16) / 2, m = (s - 16) % 2; vf_b_open(d, VK_OBJ); SIB_NAME(n); vf_b_open(d, VK_OBJ); SIB_NAME(m); SIB_LEAF(0); vf_b_close(d); vf_b_close(d); break; }
+    case 20: case 21: vf_b_open(d, VK_OBJ); SIB_NAME(s - 20); vf_b_open(d, VK_ARR); SIB_LEAF(0); vf_b_close(d); vf_b_close(d); break;
+    case 22: case 23: vf_b_open(d, VK_ARR); vf_b_open(d, VK_OBJ); SIB_NAME(s - 22); SIB_LEAF(0); vf_b_close(d); vf_b_close(d); break;
+    case 24: vf_b_open(d, VK_ARR); vf_b_open(d, VK_ARR); SIB_LEAF(0); vf_b_close(d); vf_b_close(d); break;
+    case 25: vf_b_open(d, VK_OBJ); SIB_NAME(0); SIB_LEAF(0); SIB_NAME(1); SIB_LEAF(1); vf_b_close(d); break;
+    default: vf_b_open(d, VK_ARR); SIB_LEAF(0); SIB_LEAF(1); vf_b_close(d); break;
+    }
+#undef SIB_LEAF
+#undef SIB_VAL
+#undef SIB_NAME
+}
+static inline void vf_sibling_run_ar(vf_gen *g, int arity_lo, int arity_hi)
+{
+    static const char *const nm[2][3] = { { "", "a", "b" }, { "a", "b", "c" } };
+    g->index = 0; g->stop = false;
+    for (int arity = arity_lo; arity <= arity_hi; arity++) {
+        int ns = arity == 2 ? VF_NSIB : VF_NSIB_SMALL;
+        int total = 1;
+        for (int i = 0; i < arity; i++) total *= ns;
+        for (int form = 0; form < 3; form++)          /* 0: object root, names from ""; 1: object root, names from "a"; 2: array root */
+            for (int combo = 0; combo < total && !g->stop; combo++) {
+                vf_b_reset(&g->doc);
+                g->leafk = 0;
+                g->root_kind = form == 2 ? VK_ARR : VK_OBJ;
+                vf_b_open(&g->doc, g->root_kind);
+                int c = combo;
+                for (int i = 0; i < arity; i++) {
+                    if (form != 2) vf_b_name(&g->doc, nm[form][i], strlen(nm[form][i]));
+                    vf_sib_subtree(g, c % ns);
+                    c /= ns;
+                }
+                vf_b_close(&g->doc);
+                g->cb(g, g->u);
+                g->index++;
+            }
+    }
+}
+
+static inline void vf_sibling_run(vf_gen *g, int level) { vf_sibling_run_ar(g, 2, level >= 2 ? 3 : 2); }
+
 /* standard name alphabet a<b<c */
 static const vf_name vf_names_abc[] = { { (const uint8_t *) "a", 1 }, { (const uint8_t *) "b", 1 }, { (const uint8_t *) "c", 1 } };
 
